@@ -394,6 +394,14 @@ impl Prop for C18 {
         let faults = vec![Fault { op: 0, role: FILE.into(), dir: Dir::W, at: At::Byte(k), act: Act::Enospc }];
         Case { inst, hash_seed: rng.next(), faults, chunk_r: Chunk::Whole, chunk_w: if k % 3 == 0 { Chunk::Rand { max: 7, seed: gs } } else { Chunk::Whole } }
     }
+    fn sibling(&self, c: &Case) -> Option<Case> {
+        // every sixth case is preceded, in the same run, by another case of the property (generated from its hash seed)
+        if c.hash_seed % 6 != 4 {
+            return None;
+        }
+        Some(self.gen(&mut Rng::new(c.hash_seed ^ 0x51B1_1B15), Tier::Quick, 0))
+    }
+
     fn sim_params(&self, c: &Case) -> SimParams {
         SimParams { faults: c.faults.clone(), chunk_r: c.chunk_r.clone(), chunk_w: c.chunk_w.clone(), hash_seed: c.hash_seed, ..Default::default() }
     }
